@@ -27,4 +27,5 @@ class DefinedMethodsKey(ListKey["Method"]):
 
 @dataclass(frozen=True)
 class ProvidedMethodsKey(ListKey["Method"]):
-    pass
+    # read by the transaction manager both before and after it registers the methods of merged transactions
+    lock_on_get = False
